@@ -161,11 +161,12 @@ def gen_probe(g, chain, has_index, later_marker=None, allow=None, buildnone_only
     return nm, ["switch", path, cases, ["const", TAGS[9], None]], None
 
 
-def gen_scope(g, chain, depth, has_index, in_grange=False):
+def gen_scope(g, chain, depth, has_index, in_grange=False, want_index=False, element_of_grange=False):
     """-> (spec, value) for one scope; chain = [(marker name, value)...] of enclosing scopes"""
     draw = g.draw
     # (a LazyStruct skips its members by seeking and so never notices a truncated element: not inside GreedyRange elements)
-    kind = draw(st.sampled_from(["struct", "struct", "struct", "seq", "fseq", "union"] + ([] if in_grange else ["lazystruct"])))
+    # (a Union with parsefrom=None consumes nothing: as the element of a GreedyRange it would denote an endless list)
+    kind = draw(st.sampled_from(["struct", "struct", "struct", "seq", "fseq"] + ([] if element_of_grange else ["union"]) + ([] if in_grange else ["lazystruct"])))
     if kind != "struct":
         g.labels.add("nontrivial")
         g.labels.add("scope/" + kind)
@@ -190,8 +191,11 @@ def gen_scope(g, chain, depth, has_index, in_grange=False):
     allow = ("param", "flag") if kind == "lazystruct" else None
 
     def add_probes(n):
-        for _ in range(n):
-            nm, sp, val = gen_probe(g, here, hi, allow=allow, buildnone_only=(kind == "fseq"))    # (a FocusedSeq builds only its focus from a value)
+        for j in range(n):
+            al = allow
+            if want_index and hi and j == 0 and kind != "lazystruct":
+                al = ("index",)     # element of a repetition: at least one member depends on the repetition index
+            nm, sp, val = gen_probe(g, here, hi, allow=al, buildnone_only=(kind == "fseq"))    # (a FocusedSeq builds only its focus from a value)
             members.append([nm, sp])
             values[nm] = val
     if kind == "union":
@@ -201,10 +205,12 @@ def gen_scope(g, chain, depth, has_index, in_grange=False):
         spec = ["union", None, [marker] + sub_members]
         # build from the marker only (first member that has a key)
         return spec, {mname: mval if mform == "plain" else None}, here
-    add_probes(draw(st.integers(0, 2)))
+    add_probes(draw(st.integers(1 if want_index else 0, 2)))
     if depth > 1 and kind != "lazystruct" and not (kind == "fseq" and mform == "plain") and draw(st.integers(0, 4)) != 0:
         cname = g.name("c")
         rep = draw(st.sampled_from(["none", "none", "array", "arrayk", "grange", "runtil"]))
+        # discard=True: the elements are processed (their references must resolve as ever, _index must keep counting) but not kept
+        discard = rep != "none" and draw(st.integers(0, 3)) == 0
         if rep == "none":
             cs, cv, _ = gen_scope(g, here, depth - 1, hi, in_grange)
             members.append([cname, cs])
@@ -216,24 +222,27 @@ def gen_scope(g, chain, depth, has_index, in_grange=False):
             if rep == "arrayk" and g.params:
                 pk = draw(st.sampled_from(sorted(g.params)))
                 n = g.params[pk]
-            cs, cv, _ = gen_scope(g, here, depth - 1, 1, in_grange or rep == "grange")
+            cs, cv, _ = gen_scope(g, here, depth - 1, 1, in_grange or rep == "grange", want_index=discard or draw(st.integers(0, 2)) == 0,
+                                   element_of_grange=(rep == "grange"))
+            if discard:
+                g.labels.add("repetition/discard")
             if rep == "array":
-                members.append([cname, ["array", n, cs]])
+                members.append([cname, ["array", n, cs] + (["ctor", True] if discard else [])])
             elif rep == "arrayk" and g.params:
-                members.append([cname, ["array", ["this", ["_params", pk], "attr"], cs]])
+                members.append([cname, ["array", ["this", ["_params", pk], "attr"], cs] + (["ctor", True] if discard else [])])
             elif rep == "grange":
-                members.append([cname, ["prefixed", ["varint"], ["grange", cs], False]])
+                members.append([cname, ["prefixed", ["varint"], ["grange", cs] + ([True] if discard else []), False]])
             else:
                 # RepeatUntil over struct scopes: the predicate looks at the element's marker (obj_.m == 9), true for the last one only
                 mk = [nm for nm, sp in (cs[1] if cs[0] == "struct" else []) if nm and nm.startswith("m") and sp == BYTE]
                 if mk and isinstance(cv, dict) and cv.get(mk[0]) is not None:
-                    members.append([cname, ["runtil", ["bin", "==", ["obj", [mk[0]]], ["const", 9]], cs]])
+                    members.append([cname, ["runtil", ["bin", "==", ["obj", [mk[0]]], ["const", 9]], cs] + ([True] if discard else [])])
                     vals = [dict(cv) for _ in range(n)]
                     vals[-1][mk[0]] = 9
                     values[cname] = vals
                     add_probes(draw(st.integers(0, 2)))
                     return _finish(kind, members, values, mname, mval, mform, here)
-                members.append([cname, ["array", n, cs]])
+                members.append([cname, ["array", n, cs] + (["ctor", True] if discard else [])])
             values[cname] = [cv for _ in range(n)]
         add_probes(draw(st.integers(0, 2)))
     return _finish(kind, members, values, mname, mval, mform, here)
